@@ -123,13 +123,23 @@ Theorem C12_identity_attributes : forall primary i,
 Proof. exact identity_attrs_exact. Qed.
 Print Assumptions C12_identity_attributes.
 
-(* a subkey shows usage and lifetime of its binding signature, creation date and expiry counted
-   from the creation time in the subkey packet (as `gpg --list-keys` does) *)
+(* a subkey shows usage and lifetime of its binding signature - for a revoked subkey the binding
+   signature that is kept beside the revocation (sk_shown; C11_subkey_shown_bound: it was verified
+   like the one that counts) -, creation date and expiry counted from the creation time in the
+   subkey packet (as `gpg --list-keys` does) *)
+Theorem C12_subkey_shown : forall s,
+  sk_shown fixed s =
+    if sc_type (sk_sig s) =? pgp_sigtype_subkey_revocation
+    then match sk_bind s with Some b => b | None => sk_sig s end
+    else sk_sig s.
+Proof. reflexivity. Qed.
+Print Assumptions C12_subkey_shown.
+
 Theorem C12_subkey_dates : forall s,
   subkey_sig_attrs fixed s =
-    [(bs "Usage", usage_string (sc_flags (sk_sig s)));
+    [(bs "Usage", usage_string (sc_flags (sk_shown fixed s)));
      (bs "Created", fmt_date_utc (pk_created (sk_key s)));
-     (bs "Expires", match sc_keylife (sk_sig s) with
+     (bs "Expires", match sc_keylife (sk_shown fixed s) with
                     | None => bs "never"
                     | Some 0 => bs "never"
                     | Some l => fmt_date_utc (pk_created (sk_key s) + l)
@@ -206,3 +216,13 @@ Theorem C12_F39_refuted :
     [(bs "Usage", bs "encrypt communications, encrypt storage"); (bs "Created", bs "2020-01-01"); (bs "Expires", bs "2023-06-01")].
 Proof. split; [exact f39_legacy | exact f39_fixed]. Qed.
 Print Assumptions C12_F39_refuted.
+
+(* F41: a subkey bound for encryption on 2020-01-01 with a lifetime of three years and revoked on
+   2020-09-13 was shown with what the revocation signature carries: no usage, never expires *)
+Theorem C12_F41_refuted :
+  subkey_sig_attrs legacy f41_subkey =
+    [(bs "Usage", []); (bs "Created", bs "2020-09-13"); (bs "Expires", bs "never")] /\
+  subkey_sig_attrs fixed f41_subkey =
+    [(bs "Usage", bs "encrypt communications, encrypt storage"); (bs "Created", bs "2020-01-01"); (bs "Expires", bs "2022-12-31")].
+Proof. split; [exact f41_legacy | exact f41_fixed]. Qed.
+Print Assumptions C12_F41_refuted.
